@@ -6,6 +6,7 @@ from .registers import Or1kRegister
 from ..encoding import Instruction, Syntax, Operand, Constructor
 from ..encoding import Relocation
 from ..stack import StackLocation
+from ...utils.bitfun import wrap_negative
 from . import registers
 
 
@@ -25,8 +26,7 @@ class JumpRelocation(Relocation):
         assert sym_value % 4 == 0
         assert reloc_value % 4 == 0
         offset = sym_value - reloc_value
-        # assert offset in range(-256, 254, 4), str(offset)
-        return offset // 4
+        return wrap_negative(offset // 4, 26)
 
 
 @orbis32.register_relocation
